@@ -26,6 +26,7 @@ import Restful.Lemmas.TieImpMatch
 import Restful.Lemmas.TieImpTemplate
 import Restful.Lemmas.TieImpCurlySel
 import Restful.Lemmas.TieImpJsrSel
+import Restful.Lemmas.TieImpSelect
 namespace Restful
 namespace Props
 variable (E : ReEnv)
@@ -601,3 +602,6 @@ end Restful
 -- also: Restful.TieImp.select_routes
 -- also: Restful.TieImp.jsr_select_routes
 -- also: Restful.TieImp.jsr_detect_dispatcher
+-- also: Restful.TieImp.routeCurly_eq_sel
+-- also: Restful.TieImp.curly_select_route
+-- also: Restful.TieImp.jsr_select_route
